@@ -4,9 +4,6 @@
 fn assert(c: bool) { if !c { panic!("debug assertion (R2) failed") } }
 fn fmt_opaque() -> String { String::new() }
 include!("plain.rs");
-impl Clone for EditOp {
-    fn clone(&self) -> Self { match self { EditOp::Keep => EditOp::Keep, EditOp::Insert => EditOp::Insert, EditOp::Delete => EditOp::Delete, EditOp::Replace => EditOp::Replace } }
-}
 
 // executable rendering of the contract (spec.rs): lev, script_ok, cost
 fn lev(a: &[u16], b: &[u16]) -> usize {
